@@ -121,7 +121,9 @@ VSseek(int32 vkey, /* IN: vdata key */
     if (vs->wlist.n <= 0)
         HGOTO_ERROR(DFE_BADFIELDS, FAIL);
 
-    /* calculate offset of element in vdata */
+    /* calculate offset of element in vdata (it must be a representable element offset) */
+    if (vs->wlist.ivsize > 0 && eltpos > INT32_MAX / (int32)vs->wlist.ivsize)
+        HGOTO_ERROR(DFE_BADSEEK, FAIL);
     offset = eltpos * vs->wlist.ivsize;
 
     /* seek to element */
